@@ -120,6 +120,8 @@ func cmdDump(args []string) {
 			if *smt != "" && regexp.MustCompile(*smt).MatchString(o.ID) {
 				if os.Getenv("GOVC_SLIM") != "" && o.slimText != "" {
 					fmt.Println(o.slimText)
+				} else if os.Getenv("GOVC_USES") != "" && o.usesText != "" {
+					fmt.Println(o.usesText)
 				} else {
 					fmt.Println(o.scriptText)
 				}
